@@ -1,5 +1,6 @@
 """C11 — Pool worker count is exact and bounded (structural clauses)."""
 from rules.common import start
+from rules import wave3
 from rules import wave2
 from rules import pool, sched
 
@@ -18,4 +19,6 @@ def run(tier):
     pool.stop_rule(run, f, "C11-STOP")
     # clauses added for the wave-2 seeds (rules/wave2.py; DESIGN 12a)
     wave2.worker_exit_rule(run, f, "C11-WORKER-EXIT")
+    # clauses added for the wave-2 seeds (rules/wave2.py; DESIGN 12a)
+    wave3.change_broadcast_rule(run, f, "C11-BROADCAST-EVERY-CHANGE")
     return run.finish()
